@@ -8,7 +8,7 @@ from .refs import pep440 as P
 from .refs import semver as S
 
 DIRT_KINDS = ["clean", "modified", "staged_new", "untracked", "ignored_only", "deleted", "staged_modified", "staged_then_reverted", "staged_new_then_deleted",
-              "untracked_in_subdir"]
+              "untracked_in_subdir", "touched_same_content"]
 
 
 class GitError(Exception):
@@ -197,6 +197,15 @@ class Repo:
             self.git("add", "ghost.txt")
             os.remove(os.path.join(p, "ghost.txt"))
             return True
+        if kind == "touched_same_content":
+            # same bytes, new inode/mtime (cp -r, cache restore, edit-and-revert): the index stat data is stale, the tree is clean
+            fp = os.path.join(p, "tracked.txt")
+            data = open(fp, "rb").read()
+            os.remove(fp)
+            with open(fp, "wb") as f:
+                f.write(data)
+            os.utime(fp, (1_000_000_000 + self.rng.randrange(10 ** 8), 1_000_000_000 + self.rng.randrange(10 ** 8)))
+            return False
         if kind == "untracked_in_subdir":
             os.makedirs(os.path.join(p, "newdir", "deep"), exist_ok=True)
             with open(os.path.join(p, "newdir", "deep", "u.txt"), "w") as f:
